@@ -351,6 +351,7 @@ func (cmpl *compiler) parseStatement(stmt ast.Statement) nodeStatement {
 		return &nodeWithStatement{
 			object: cmpl.parseExpression(stmt.Object),
 			body:   cmpl.parseStatement(stmt.Body),
+			idx:    stmt.Object.Idx0(),
 		}
 	default:
 		panic(fmt.Sprintf("parse statement: unknown type %T", stmt))
@@ -599,6 +600,7 @@ type (
 	nodeWithStatement struct {
 		object nodeExpression
 		body   nodeStatement
+		idx    file.Idx
 	}
 )
 
